@@ -102,6 +102,11 @@ def run_c19(case):
         app = make_app(fake_clock=True, adapter=FileAdapter(case["compress"], d))
         client = app.test_client()
         u = start(client, timeout={"seconds": 100}); begin(client, u)
+        if case.get("resession"):
+            # an earlier session of the same instance that was saved at the same clock positions
+            for kind in case["resession"]:
+                step_req(client, u, kind)
+            client.post("/%s/begin-session" % u, json={"scenario_managers": ["sm"], "scenarios": ["base"], "equations": ["s"]})
         for kind in case["kinds"]:
             r = step_req(client, u, kind)
             if r.status_code != 200:
@@ -192,7 +197,7 @@ def run_c20(case):
     finally:
         shutil.rmtree(d, ignore_errors=True); shutil.rmtree(d_ref, ignore_errors=True)
 
-case = {'compress': False, 'kinds': ['1.0', 'none', 'multi1.0', 'empty'], 'mode': 'server'}
+case = {'compress': False, 'kinds': ['1.0'], 'mode': 'evict', 'resession': ['7.0']}
 bad = run_c19(case)
 print("case:", case)
 print("FAIL: " + bad if bad else "PASS")
